@@ -6,8 +6,9 @@ from n0v.core import Prop
 from props import xpath_common as X
 
 FIELDS = ["id", "k1", "f", "a"]
-VALS = ["1", "2", "x", "B", "a b", 1, 2, 1.5, "xy", "10"]
-LITS = ["1", "2", "x", "B", "a b", "xy", "1.5", "zz", "10", "0"]
+BIG = 9007199254740993      # 2**53 + 1: not representable as a float
+VALS = ["1", "2", "x", "B", "a b", 1, 2, 1.5, "xy", "10", BIG, BIG - 1]
+LITS = ["1", "2", "x", "B", "a b", "xy", "1.5", "zz", "10", "0", str(BIG), str(BIG - 1)]
 
 
 def gen_recs(rng, n=None):
